@@ -14,7 +14,7 @@ out = {"errors": []}
 try:
     for mod, classes in spec["modules"].items():
         with open(os.path.join(tmp, mod + ".py"), "w") as f:
-            f.write("import pydantic.v1.dataclasses\nfrom tickit.core.components.component import Component, ComponentConfig\n"
+            f.write("import pydantic.v1.dataclasses\nfrom typing import Tuple\nfrom tickit.core.components.component import Component, ComponentConfig\n"
                     "from tickit.core.components.device_component import DeviceComponent\nfrom tickit.devices.sink import SinkDevice\n\n")
             for item in classes:
                 cname, fields = item[0], item[1]
@@ -52,6 +52,16 @@ try:
         cfgs2 = read_configs(path2)
         out["roundtrip_equal"] = cfgs2 == cfgs
         out["roundtrip_classes"] = [type(c).__qualname__ for c in cfgs2] == [type(c).__qualname__ for c in cfgs]
+        # the same round trip with PyYAML's standard dumper (what `yaml.dump` writes for Python data: tuples
+        # etc. carry python tags, which the loader tickit asks for - yaml.Loader - reads back)
+        try:
+            path3 = os.path.join(tmp, "cfg3.yaml")
+            with open(path3, "w") as f:
+                yaml.dump([asdict(c) for c in cfgs], f)
+            cfgs3 = read_configs(path3)
+            out["roundtrip_full_equal"] = cfgs3 == cfgs
+        except Exception as e:
+            out["roundtrip_full_error"] = type(e).__name__ + ": " + str(e)[:200]
     except Exception as e:
         out["load_error"] = type(e).__name__
     sels = []
